@@ -1,5 +1,7 @@
 import AndaVerif.Proofs.ConcWitness
 import AndaVerif.Proofs.ConcLinRT
+import AndaVerif.Proofs.ConcCorollaries
+import AndaVerif.Proofs.ConcSaved
 import AndaVerif.Proofs.ConcCache
 /-
 C05 — Concurrent writers serialize: nothing lost, nothing doubled, state converges.
@@ -324,6 +326,102 @@ theorem linearizable_partial (sh : Shared) (wf : WF sh) (ag : Agree sh) (g0 : Gh
       omega
     exact pairwise_gt_order (fun p : Nat × Res => tlOf (run s (start sh ops)) p.1) _ rt.sorted
       (x, rx) (y, ry) hmx hmy hkey
+
+/-- **Exactly one of several concurrent removes of a document returns it** (with `one_remove_wins`:
+at most one, under every schedule and whatever else runs; here: exactly one).  `n ≥ 1` concurrent
+`remove(id)` calls of a live document, any schedule, single-threaded-executor granularity: when all
+have returned, one of them returned the document and every other one returned `None`. -/
+theorem exactly_one_remove_returns (sh : Shared) (wf : WF sh) (ag : Agree sh) (g0 : GhostInit sh)
+    (hfine : sh.conf.fine = false) (id : Nat) (d : Doc) (v : Nat) (hdoc : sh.store id = some (d, v))
+    (n : Nat) (hn : 0 < n) (s : List Nat)
+    (hc : (run s (start sh (List.replicate n (.rm id)))).complete = true) :
+    ∃ x, x < n ∧ (results (run s (start sh (List.replicate n (.rm id)))))[x]? = some (some (.doc d)) ∧
+      ∀ y, y < n → y ≠ x →
+        (results (run s (start sh (List.replicate n (.rm id)))))[y]? = some (some .noDoc) := by
+  have hops : ∀ (x : Nat) (op : Op), (List.replicate n (Op.rm id))[x]? = some op → op = .rm id := by
+    intro x op h
+    have := List.mem_of_getElem? h
+    exact (List.mem_replicate.mp this).2
+  have ok : OpsOK sh.maxId (List.replicate n (.rm id)) := by
+    refine ⟨?_, ?_⟩
+    · intro op hop i ht
+      rw [(List.mem_replicate.mp hop).2] at ht
+      simp only [opTarget, Option.some.injEq] at ht
+      subst ht
+      exact wf.dom id (by simp [hdoc])
+    · intro i hm
+      have := (List.mem_replicate.mp hm).2
+      cases this
+  obtain ⟨log, hexp, hnodup, hres, hall, _⟩ :=
+    linearizable_partial sh wf ag g0 hfine (List.replicate n (.rm id)) ok s hc
+  have h0 : (specOf sh).docs id = some d := by simp [specOf, hdoc]
+  rcases explains_removes sh.conf _ id d hops log _ _ hexp h0 with ⟨rfl, _⟩ | ⟨_, x, hx, hothers⟩
+  · -- the log cannot be empty: call 0 is a mutation
+    obtain ⟨r, hr⟩ := hall 0 (.rm id) (by simp [List.getElem?_replicate, hn]) rfl
+    cases hr
+  · have hxres := hres x _ hx
+    have hxlt : x < n := by
+      have : x < (results (run s (start sh (List.replicate n (.rm id))))).length := by
+        rcases Nat.lt_or_ge x (results (run s (start sh (List.replicate n (.rm id))))).length with h | h
+        · exact h
+        · simp [List.getElem?_eq_none h] at hxres
+      have hlen : (results (run s (start sh (List.replicate n (.rm id))))).length = n := by
+        simp only [results, List.length_map]
+        have := Sched.sched_inv step (fun c' => c'.th.length = n)
+          (fun t c1 c2 hinv hstep => by
+            obtain ⟨th, sh', th', _, _, rfl⟩ := step_elim hstep
+            simpa using hinv) s (start sh (List.replicate n (.rm id))) (by simp [start])
+        exact this
+      omega
+    refine ⟨x, hxlt, hxres, ?_⟩
+    intro y hy hyx
+    obtain ⟨r, hr⟩ := hall y (.rm id) (by simp [List.getElem?_replicate, hy]) rfl
+    rcases hothers (y, r) hr with he | he
+    · simp only [Prod.mk.injEq] at he; exact absurd he.1 hyx
+    · simp only at he; subst he; exact hres y _ hr
+
+/-- non-vacuity: three concurrent removes of document 1 of `shW`, interleaved -/
+example : results (run [0, 1, 2, 0, 1, 2, 0, 0, 0, 1, 2, 1, 2, 1, 2] (start shW (List.replicate 3 (.rm 1)))) =
+    [some (.doc ⟨5, 0, 0⟩), some .noDoc, some .noDoc] := by decide
+
+/-- **State converges** (what a reopen would read is the serial state).  After any schedule of any
+calls (`OpsOK`, single-threaded-executor granularity), once all calls have returned and the flush
+watermark has caught up (`last_saved_version = stats.version`: the last thing that happened to the
+handle was a flush — see the example), the *persisted* ids object is exactly the current id set,
+the persisted metadata object is the snapshot of the current counters and extensions (all fields but
+`max_document_id`, which also advances for failed adds), the id set is exactly the set of documents
+of the backend, and documents and extensions are those of the serial execution
+(`LinearizedRT`).  `SavedInit`: the initial handle was in such a state or had unsaved changes. -/
+theorem state_converges (sh : Shared) (wf : WF sh) (ag : Agree sh) (g0 : GhostInit sh)
+    (si : SavedInit sh) (hfine : sh.conf.fine = false) (ops : List Op) (ok : OpsOK sh.maxId ops)
+    (s : List Nat) (hc : (run s (start sh ops)).complete = true)
+    (hsaved : (run s (start sh ops)).sh.savedVer = (run s (start sh ops)).sh.statVer) :
+    let c := run s (start sh ops)
+    c.sh.pIds = some c.sh.ids ∧
+    c.sh.pMeta.map MetaSnap.core = some (snapshot c.sh).core ∧
+    (∀ i, i ∈ c.sh.ids ↔ (specOf c.sh).docs i ≠ none) ∧
+    LinearizedRT sh.conf ops (specOf sh) c := by
+  intro c
+  have sv := savedInv_run sh wf si ops s
+  obtain ⟨_, inv⟩ := rtInv_run sh wf ag g0 hfine ops ok s
+  have hno : ∀ (x : Nat) (th : Thread), c.th[x]? = some th → th.atFIds = false := by
+    intro x th hx
+    have := List.all_eq_true.mp hc th (List.mem_of_getElem? hx)
+    have hpc : th.pc = .done := by simpa using this
+    unfold Thread.atFIds
+    split <;> simp [hpc]
+  obtain ⟨h1, h2⟩ := sv.cur hno hsaved
+  refine ⟨h1, h2, ?_, linearizable_partial sh wf ag g0 hfine ops ok s hc⟩
+  intro i
+  rw [inv.idsAbs i]
+  simp only [specOf]
+  cases (run s (start sh ops)).sh.store i <;> simp
+
+/-- non-vacuity: an update, an add and a `save_extension` race, a flush is issued after they
+returned (its actions come last): everything persisted is current -/
+example : let c := run [0, 1, 2, 0, 1, 2, 0, 0, 0, 1, 2, 2, 3, 3, 3, 3, 3, 3, 3, 3] (start shW [.upd 1 none none (some 9), .add ⟨6, 2, 2⟩, .ext 0 4, .flush])
+    c.complete = true ∧ c.sh.savedVer = c.sh.statVer ∧ c.sh.pIds = some [1, 2] ∧
+    c.sh.pMeta.map (·.ext) = some [(0, 4)] := by decide
 
 /-- `linearizable_partial`: its hypotheses are met by a handle holding a document, with a unique
 index, and a set of calls that fight over that document and over a unique key … -/
